@@ -60,6 +60,10 @@ theorem HT.fix {m : M α} (h : ∀ R0, P R0 → HT cfg env (fun R => R = R0) m Q
 theorem HT.pull {φ : Prop} {m : M α} (h : φ → HT cfg env P m Q) : HT cfg env (fun R => P R ∧ φ) m Q :=
   fun st hi hz hp => h hp.2 st hi hz hp.1
 
+/-- a state-independent consequence of the precondition becomes a hypothesis -/
+theorem HT.assume {φ : Prop} {m : M α} (hp : ∀ R, P R → φ) (h : φ → HT cfg env P m Q) : HT cfg env P m Q :=
+  fun st hi hz hpp => h (hp _ hpp) st hi hz hpp
+
 /-- a precondition that cannot hold -/
 theorem HT.absurd {m : M α} (h : ∀ R, ¬ P R) : HT cfg env P m Q := fun st _ _ hp => (h _ hp).elim
 
